@@ -200,6 +200,7 @@ Proof.
   - destruct (enabled_tick s) eqn:Een; [|apply VS_stutter].
     rewrite step_tick_view. apply VS_tick. exact Een.
   - destruct (step_run_view sc ln s seen end_) as [pc' [Hpc Hv]]. rewrite Hv. apply VS_run. exact Hpc.
+  - apply VS_stutter.
 Qed.
 End Events.
 
